@@ -104,3 +104,311 @@ fn section_order_contract() {
     section_order::<1, 2, 1, 5>(); // two groups, one pass
     section_order::<2, 3, 2, 10>(); // LF groups, groups and passes all plural
 }
+
+// ==== Toc::parse (unit toc/aux) ====================================================================================
+// Contract for Toc::parse / iter_bitstream_order / bookmark / total_byte_size / adjust_offsets (C14, C01).
+//
+// 18181-1 F.3 (TOC):  permuted_toc = Bool();  if permuted_toc: permutation = ReadPermutation(entropy stream with 8
+// contexts, size = number of entries, skip = 0);  ZeroPadToByte();  toc_entries[k] = U32(u(10), 1024 + u(14),
+// 17408 + u(22), 4211712 + u(30)) for k in 0..n -- these are the section sizes IN BITSTREAM ORDER;  ZeroPadToByte().
+// The sections follow immediately: the k-th section of the bitstream starts at  end_of_TOC + sum(toc_entries[..k]).
+// Section i of the standard's order (LfGlobal, LfGroup.., HfGlobal, PassGroup.. pass-major) is the permutation[i]-th
+// section of the bitstream (identity if not permuted).
+//
+// What is REAL and what is ASSUMED in these harnesses:
+//   real     Toc::parse itself, Bitstream (read_bool / zero_pad_to_byte / read_u32 / num_read_bits) on symbolic bytes,
+//            FrameHeader::num_groups / num_lf_groups on a header built with default_with_context (never parsed),
+//            jxl_coding::Decoder::parse / begin / finalize on ONE fixed 11-bit histogram header (no LZ77, 8 contexts in
+//            one cluster, prefix code with a single symbol) -- a `Decoder` cannot be built any other way from this crate.
+//   assumed  jxl_coding::read_permutation is replaced (kani::stub) by its contract: it consumes some bits (0..=9 here)
+//            and returns Err or SOME permutation of 0..size -- every permutation of the table is explored. That the real
+//            Lehmer decoder returns a permutation is outside this unit (contracts/kani/jxl-coding/permutation.rs says why
+//            it is not under contract).
+// Entry counts: the format has no tables of 2..=4 entries (1, or 1 + num_lf_groups + 1 + num_groups * num_passes >= 5).
+use jxl_oxide_common::BundleDefault;
+
+static mut STUB_PERM: [usize; 8] = [0; 8];
+static mut STUB_FAIL: bool = false;
+static mut STUB_BITS: usize = 0;
+static mut STUB_CALLS: u32 = 0;
+static mut STUB_ARGS: (u32, u32) = (0, 0);
+
+/// assumed contract of jxl_coding::read_permutation (see above)
+fn stub_read_permutation(
+    bitstream: &mut Bitstream,
+    _decoder: &mut jxl_coding::Decoder,
+    size: u32,
+    skip: u32,
+) -> jxl_coding::CodingResult<Vec<usize>> {
+    let (perm, fail, bits) = unsafe {
+        STUB_CALLS += 1;
+        STUB_ARGS = (size, skip);
+        (STUB_PERM, STUB_FAIL, STUB_BITS)
+    };
+    if fail {
+        return Err(jxl_coding::Error::InvalidPermutation);
+    }
+    if bitstream.skip_bits(bits).is_err() {
+        return Err(jxl_coding::Error::InvalidPermutation);
+    }
+    Ok(match size {
+        1 => [perm[0]].to_vec(),
+        5 => [perm[0], perm[1], perm[2], perm[3], perm[4]].to_vec(),
+        7 => [perm[0], perm[1], perm[2], perm[3], perm[4], perm[5], perm[6]].to_vec(),
+        _ => {
+            kani::assume(false); // table shapes of the instantiations below only
+            Vec::new()
+        }
+    })
+}
+
+fn toc_header(width: u32, height: u32, num_passes: u32) -> crate::FrameHeader {
+    let mut size = <jxl_image::SizeHeader as BundleDefault<()>>::default_with_context(());
+    size.width = width;
+    size.height = height;
+    let metadata = <jxl_image::ImageMetadata as BundleDefault<()>>::default_with_context(());
+    let ih = jxl_image::ImageHeader { size, metadata };
+    let mut fh = <crate::FrameHeader as BundleDefault<&jxl_image::ImageHeader>>::default_with_context(&ih);
+    fh.width = width;
+    fh.height = height;
+    fh.passes.num_passes = num_passes; // U32(1, 2, 3, 4 + u(3)), header.rs:138
+    fh
+}
+
+/// the standard's section order for a table of `1 + num_lf + 1 + num_groups * num_passes` entries
+fn spec_kind(i: usize, n: usize, num_lf: usize, num_groups: usize) -> TocGroupKind {
+    if n == 1 {
+        TocGroupKind::All
+    } else if i == 0 {
+        TocGroupKind::LfGlobal
+    } else if i <= num_lf {
+        TocGroupKind::LfGroup((i - 1) as u32)
+    } else if i == 1 + num_lf {
+        TocGroupKind::HfGlobal
+    } else {
+        let j = i - 2 - num_lf;
+        TocGroupKind::GroupPass { pass_idx: (j / num_groups) as u32, group_idx: (j % num_groups) as u32 }
+    }
+}
+
+/// 64 bits of the little-endian bit view starting at bit `pos` (the array is padded so that this never overruns)
+fn spec_window(bytes: &[u8], pos: usize) -> u64 {
+    let b = pos >> 3;
+    let mut w = 0u64;
+    let mut k = 0;
+    while k < 8 {
+        w |= (bytes[b + k] as u64) << (8 * k);
+        k += 1;
+    }
+    w >> (pos & 7)
+}
+
+/// one TOC entry: U32(u(10), 1024 + u(14), 17408 + u(22), 4211712 + u(30)) -> (value, bits)
+fn spec_toc_entry(bytes: &[u8], pos: usize) -> (u32, usize) {
+    let w = spec_window(bytes, pos);
+    let (off, n) = match w & 3 {
+        0 => (0u32, 10usize),
+        1 => (1024, 14),
+        2 => (17408, 22),
+        _ => (4211712, 30),
+    };
+    (off + ((w >> 2) & ((1u64 << n) - 1)) as u32, 2 + n)
+}
+
+/// bits [pos, next byte boundary) are all zero
+fn spec_pad_ok(bytes: &[u8], pos: usize) -> bool {
+    let r = pos & 7;
+    r == 0 || (bytes[pos >> 3] >> r) == 0
+}
+
+// 11-bit entropy-coder header, LSB first after the permuted_toc bit:
+//   lz77.enabled = 0 | is_simple clustering = 1, nbits = 00 (all 8 contexts -> cluster 0) | use_prefix_code = 1 |
+//   IntegerConfig(log_alphabet_size 15): split_exponent = 0000 (then msb/lsb take 0 bits) | prefix count: 0 -> one symbol
+const CODER_HEADER_BITS: usize = 10;
+const CODER_HEADER: u16 = 0b0_0000_1_00_1_0;
+
+/// N = table length, LEN = bytes offered to the parser (enough for the longest encoding), PAD = LEN + 8.
+fn parse_contract<const N: usize, const LEN: usize, const PAD: usize>(
+    width: u32,
+    height: u32,
+    num_passes: u32,
+    num_lf: usize,
+    num_groups: usize,
+    permuted: bool,
+    stub_bits_max: usize,
+) {
+    assert!(PAD == LEN + 8);
+    let fh = toc_header(width, height, num_passes);
+    // ---- the bitstream: symbolic, except for the coder header when permuted
+    let mut bytes: [u8; PAD] = kani::any();
+    let mut k = LEN;
+    while k < PAD {
+        bytes[k] = 0;
+        k += 1;
+    }
+    let stub_bits: usize = kani::any();
+    kani::assume(stub_bits <= stub_bits_max);
+    if permuted {
+        let head = 1u16 | (CODER_HEADER << 1); // permuted_toc = 1, then the coder header: 11 bits
+        bytes[0] = head as u8;
+        bytes[1] = (bytes[1] & !0x07) | ((head >> 8) as u8 & 0x07);
+    } else {
+        bytes[0] &= !1; // permuted_toc = 0
+    }
+    // ---- the permutation the (stubbed) decoder returns: any permutation of 0..N, or an error
+    let perm: [usize; 8] = kani::any();
+    let mut i = 0;
+    while i < N {
+        kani::assume(perm[i] < N);
+        let mut j = 0;
+        while j < i {
+            kani::assume(perm[j] != perm[i]);
+            j += 1;
+        }
+        i += 1;
+    }
+    let fail: bool = kani::any();
+    unsafe {
+        STUB_PERM = perm;
+        STUB_FAIL = fail;
+        STUB_BITS = stub_bits;
+        STUB_CALLS = 0;
+    }
+    let p = |i: usize| if permuted { perm[i] } else { i };
+
+    // ---- specification: walk the bit view
+    let mut pos = if permuted { 1 + CODER_HEADER_BITS + stub_bits } else { 1 };
+    let mut spec_ok = !(permuted && fail);
+    spec_ok = spec_ok && spec_pad_ok(&bytes, pos);
+    pos = (pos + 7) & !7;
+    let mut s = [0u32; N]; // toc_entries, bitstream order
+    let mut o = [0usize; N]; // start of the k-th section of the bitstream, relative to the end of the TOC
+    let mut total = 0usize;
+    let mut k = 0;
+    while k < N {
+        let (v, nb) = spec_toc_entry(&bytes, pos);
+        s[k] = v;
+        o[k] = total;
+        total += v as usize;
+        pos += nb;
+        k += 1;
+    }
+    spec_ok = spec_ok && spec_pad_ok(&bytes, pos);
+    pos = (pos + 7) & !7;
+    assert!(pos <= 8 * LEN); // harness sanity: the offered bytes always suffice (no end-of-data outcome here)
+    let base = pos / 8;
+
+    // ---- the real parser
+    let mut bitstream = Bitstream::new(&bytes[..LEN]);
+    let r = Toc::parse(&mut bitstream, &fh);
+    let calls = unsafe { STUB_CALLS };
+    assert!(calls == if permuted { 1 } else { 0 }, "[C14] the permutation is read exactly when permuted_toc is set");
+    if permuted {
+        assert!(unsafe { STUB_ARGS } == (N as u32, 0), "[C14] ReadPermutation(size = number of TOC entries, skip = 0)");
+    }
+    assert!(r.is_ok() == spec_ok, "[C14] Toc::parse fails exactly for non-zero padding or an invalid permutation (enough data offered)");
+    kani::cover!(r.is_ok());
+    kani::cover!(r.is_err());
+    let Ok(mut toc) = r else { return };
+    kani::cover!(s[0] >= 4211712 && s[N - 1] < 1024);
+    kani::cover!(!permuted || perm[0] != 0);
+
+    assert!(bitstream.num_read_bits() == pos, "[C14] parsing stops at the byte boundary after the last TOC entry");
+    assert!(toc.num_lf_groups == num_lf && toc.num_groups == num_groups, "[C14] group counts of the frame header");
+    assert!(toc.groups.len() == N, "[C14] one table entry per section");
+    assert!(toc.is_single_entry() == (N == 1), "[C14] single-section frame");
+    assert!(toc.total_size == total && toc.total_byte_size() == total, "[C14] total_size is the sum of all TOC entries");
+    if permuted {
+        assert!(toc.original_to_bitstream.len() == N && toc.bitstream_to_original.len() == N, "[C14] both maps cover the table");
+    } else {
+        assert!(toc.original_to_bitstream.is_empty() && toc.bitstream_to_original.is_empty(), "[C14] no maps for an unpermuted table");
+    }
+    let mut i = 0;
+    while i < N {
+        let g = toc.groups[i];
+        assert!(g.kind == spec_kind(i, N, num_lf, num_groups), "[C14] table is in the standard's section order");
+        assert!(g.size == s[p(i)], "[C14] section i has the size of the permutation[i]-th TOC entry");
+        assert!(g.offset == base + o[p(i)], "[C14] offset = end of TOC + sizes of the sections stored before it in the bitstream");
+        if permuted {
+            assert!(toc.original_to_bitstream[i] == perm[i], "[C14] original_to_bitstream is the decoded permutation");
+            assert!(toc.bitstream_to_original[perm[i]] == i, "[C14] bitstream_to_original is its inverse");
+            assert!(toc.original_to_bitstream[toc.bitstream_to_original[i]] == i, "[C14] the maps are mutually inverse");
+        }
+        assert!(toc.group_index_bitstream_order(g.kind) == p(i), "[C14] group_index_bitstream_order(kind of section i) = its bitstream position");
+        i += 1;
+    }
+    assert!(toc.bookmark() == base, "[C14] bookmark = offset of the first section of the bitstream = end of the TOC");
+
+    // iter_bitstream_order: exactly N items, the k-th is the k-th section of the bitstream
+    let mut it = toc.iter_bitstream_order();
+    let mut k = 0;
+    while k < N {
+        let item = it.next();
+        assert!(item.is_some(), "[C14] iter_bitstream_order yields every section");
+        let g = item.unwrap();
+        assert!(g.offset == base + o[k] && g.size == s[k], "[C14] iter_bitstream_order: k-th item is the k-th TOC entry, contiguous from the end of the TOC");
+        // its kind is the section i with permutation[i] == k
+        let mut i = 0;
+        while i < N {
+            if p(i) == k {
+                assert!(g.kind == spec_kind(i, N, num_lf, num_groups), "[C14] iter_bitstream_order: k-th item is the section mapped to position k");
+            }
+            i += 1;
+        }
+        k += 1;
+    }
+    assert!(it.next().is_none(), "[C14] iter_bitstream_order yields nothing else");
+    drop(it);
+
+    // adjust_offsets (Frame::parse, lib.rs:120,215: global_frame_offset = byte position BEFORE the frame header <= end of TOC)
+    let gfo: usize = kani::any();
+    kani::assume(gfo <= base);
+    toc.adjust_offsets(gfo);
+    let mut i = 0;
+    while i < N {
+        assert!(toc.groups[i].offset == base + o[p(i)] - gfo && toc.groups[i].size == s[p(i)], "[C14] adjust_offsets rebases every offset and nothing else");
+        i += 1;
+    }
+    assert!(toc.total_size == total && toc.bookmark() == base - gfo, "[C14] adjust_offsets keeps sizes, bookmark follows");
+}
+
+#[kani::proof]
+#[kani::unwind(10)]
+#[kani::stub(jxl_coding::read_permutation, stub_read_permutation)]
+fn parse_single_contract() {
+    // 1x1 frame, one pass: num_groups == 1 && num_passes == 1 -> ONE entry (toc.rs:184)
+    let permuted: bool = kani::any();
+    // 2 bytes header + 4 bytes entry + stub bits <= 9
+    parse_contract::<1, 8, 16>(1, 1, 1, 1, 1, permuted, 9);
+}
+
+#[kani::proof]
+#[kani::unwind(10)]
+#[kani::stub(jxl_coding::read_permutation, stub_read_permutation)]
+fn parse_two_passes_plain_contract() {
+    // 1x1 frame, two passes: 1 + 1 + 1 + 1 * 2 = 5 entries
+    parse_contract::<5, 21, 29>(1, 1, 2, 1, 1, false, 0);
+}
+
+#[kani::proof]
+#[kani::unwind(10)]
+#[kani::stub(jxl_coding::read_permutation, stub_read_permutation)]
+fn parse_two_passes_permuted_contract() {
+    parse_contract::<5, 24, 32>(1, 1, 2, 1, 1, true, 9);
+}
+
+#[kani::proof]
+#[kani::unwind(10)]
+#[kani::stub(jxl_coding::read_permutation, stub_read_permutation)]
+fn parse_two_groups_permuted_contract() {
+    // 257x1 frame (group_dim 256: header.rs:31 default group_size_shift 1), one pass: 2 groups -> 1 + 1 + 1 + 2 = 5 entries
+    parse_contract::<5, 24, 32>(257, 1, 1, 1, 2, true, 9);
+}
+
+#[kani::proof]
+#[kani::unwind(10)]
+#[kani::stub(jxl_coding::read_permutation, stub_read_permutation)]
+fn parse_two_by_two_permuted_contract() {
+    // 257x1 frame, two passes: 1 + 1 + 1 + 2 * 2 = 7 entries
+    parse_contract::<7, 32, 40>(257, 1, 2, 1, 2, true, 9);
+}
